@@ -1,3 +1,39 @@
 import ClipVerif.Model.Conv
 namespace Proofs.C02
+open Gen
+
+theorem bmod64 {x : Int} (h1 : -(2:Int)^63 ≤ x) (h2 : x < (2:Int)^63) : x.bmod (2^64) = x := by
+  apply Int.bmod_eq_of_le_mul_two
+  · simp only [Nat.reducePow, Int.reducePow] at *; omega
+  · simp only [Nat.reducePow, Int.reducePow] at *; omega
+
+theorem absInt_toInt (d : Int64) (h1 : -(2:Int)^31 ≤ d.toInt) (h2 : d.toInt ≤ (2:Int)^31) :
+    (absInt_Int64 d).toInt = (d.toInt.natAbs : Int) := by
+  have h0 : (0 : Int64).toInt = 0 := by decide
+  unfold absInt_Int64
+  simp only [Id.run, pure, decide_eq_true_eq]
+  split
+  · rename_i h
+    rw [Int64.lt_iff_toInt_lt, h0] at h
+    rw [Int64.toInt_neg, bmod64 (by omega) (by omega)]
+    omega
+  · rename_i h
+    rw [Int64.lt_iff_toInt_lt, h0] at h
+    omega
+
+theorem ptsReallyClose_iff (a b : Point64) (ha : a.inRange) (hb : b.inRange) :
+    ptsReallyClose a b = true ↔
+      ((a.X.toInt - b.X.toInt).natAbs < 2 ∧ (a.Y.toInt - b.Y.toInt).natAbs < 2) := by
+  obtain ⟨ha1, ha2, ha3, ha4⟩ := ha
+  obtain ⟨hb1, hb2, hb3, hb4⟩ := hb
+  have hx : (a.X - b.X).toInt = a.X.toInt - b.X.toInt := by
+    rw [Int64.toInt_sub]; exact bmod64 (by omega) (by omega)
+  have hy : (a.Y - b.Y).toInt = a.Y.toInt - b.Y.toInt := by
+    rw [Int64.toInt_sub]; exact bmod64 (by omega) (by omega)
+  have h2 : (2 : Int64).toInt = 2 := by decide
+  unfold ptsReallyClose
+  simp only [Id.run, pure, Bool.and_eq_true, decide_eq_true_eq, Int64.lt_iff_toInt_lt, h2]
+  rw [absInt_toInt _ (by omega) (by omega), absInt_toInt _ (by omega) (by omega), hx, hy]
+  omega
+
 end Proofs.C02
